@@ -4,12 +4,12 @@
 //! prints one JSON line per case: tables, query JSON (for the Coq reference), SQL text, and the engine's rows
 //! (ints as numbers, strings, bools, null, floats as {"f": x}) or its error string.
 //! "ok" is false only when the engine panicked; the verdict (engine rows == reference rows) is computed in Coq.
-//!   c01 --seed S --n N [--case ID [--explain]]          generated cases
+//!   c01 --seed S --n N [--case ID [--explain]] [--timeout SECS]    witness corpus (ids 1000000..) + generated cases;
+//!       a query that does not finish within SECS (default 20) is retried (3 attempts, fresh runtime) and reported with "hung"/"plan"
 //!   c01 --probe "<sql>" --seed S --case ID              run ad-hoc SQL over the tables of case ID
 #[path = "../refsql_gen.rs"]
 mod refsql_gen;
 
-use std::panic::{catch_unwind, AssertUnwindSafe};
 use std::sync::Arc;
 
 use arrow::array::{Array, ArrayRef, BooleanArray, Float64Array, Int64Array, StringArray};
@@ -122,7 +122,16 @@ fn witnesses() -> Vec<(&'static str, Vec<Tab>, Q, usize, usize)> {
     // SELECT b.c2 FROM t1 a RIGHT JOIN t0 b ON a.c0 = b.c1 WHERE (b.c2 IS DISTINCT FROM 'a') AND (a.c1 IS NOT DISTINCT FROM b.c1)   SQL: no row
     let p5 = E::And(bx(E::Distinct(false, bx(c0(5)), bx(E::Lit(st("a"), Ty::Str)))), bx(E::Distinct(true, bx(c0(1)), bx(c0(4)))));
     let kf5 = Q::Project(vec![c0(5)], Box::new(Q::Filter(p5, Box::new(Q::Join(JK::Right, E::Cmp("=", bx(c0(0)), bx(c0(4))), Box::new(Q::Table(1)), Box::new(Q::Table(0)))))));
+    let t6 = Tab { types: vec![Ty::Int, Ty::Str, Ty::Str], parts: 2, rows: vec![
+        vec![i(0), st("c"), st("a")], vec![n.clone(), st("c"), st("c")], vec![i(2), n.clone(), n.clone()], vec![i(2), st("a"), n.clone()],
+        vec![i(-1), st("a"), n.clone()], vec![i(2), n.clone(), n.clone()], vec![i(2), st("b"), st("a")], vec![n.clone(), st("b"), st("a")]] };
+    // SELECT * FROM (SELECT * FROM t0 b WHERE 'b' > b.c2 OR b.c0 < b.c0) a WHERE EXISTS (SELECT d.c0 FROM t0 d WHERE d.c2 = a.c1)
+    // target_partitions 3, batch_size 2: intermittently never finishes (all threads parked)
+    let sub6 = Q::Project(vec![c0(0)], Box::new(Q::Filter(E::Cmp("=", bx(c0(2)), bx(E::Col(1, 1))), Box::new(Q::Table(0)))));
+    let in6 = Q::Filter(E::Or(bx(E::Cmp(">", bx(E::Lit(st("b"), Ty::Str)), bx(c0(2)))), bx(E::Cmp("<", bx(c0(0)), bx(c0(0))))), Box::new(Q::Table(0)));
+    let kf6 = Q::Filter(E::Exists(false, Box::new(sub6)), Box::new(in6));
     vec![
+        ("KF6", vec![t6], kf6, 3, 2),
         ("KF1", vec![t_kf1.clone()], kf1, 1, 8192),
         ("KF2", vec![t_l.clone(), t_r.clone()], kf2, 2, 8192),
         ("KF3", vec![t_kf1, t_r], kf3, 2, 8192),
@@ -131,25 +140,70 @@ fn witnesses() -> Vec<(&'static str, Vec<Tab>, Q, usize, usize)> {
     ]
 }
 
-fn run_case(rt: &tokio::runtime::Runtime, id: u64, stream: &str, tabs: &[Tab], q: &Q, tp: usize, bs: usize, probe: &str, explain: bool) {
+enum Attempt { Done(Result<String, String>), Panic(String), Hang }
+
+/// one execution of `sql` over fresh MemTables in a fresh runtime; gives up after `secs` seconds (the engine can dead-lock)
+fn attempt(tabs: &[Tab], sql: &str, tp: usize, bs: usize, explain: bool, secs: u64) -> Attempt {
+    let rt = tokio::runtime::Builder::new_multi_thread().worker_threads(2).enable_all().build().unwrap();
+    let (tx, rx) = std::sync::mpsc::channel();
+    let (tabs2, sql2) = (tabs.to_vec(), sql.to_string());
+    let h = rt.spawn(async move {
+        let ctx = SessionContext::new_with_config(SessionConfig::new().with_target_partitions(tp).with_batch_size(bs));
+        for (i, t) in tabs2.iter().enumerate() { register(&ctx, i, t); }
+        let r = exec(&ctx, &sql2, explain).await;
+        let _ = tx.send(r);
+    });
+    match rx.recv_timeout(std::time::Duration::from_secs(secs)) {
+        Ok(r) => Attempt::Done(r),
+        Err(std::sync::mpsc::RecvTimeoutError::Timeout) => { rt.shutdown_background(); Attempt::Hang }
+        Err(std::sync::mpsc::RecvTimeoutError::Disconnected) => {
+            let msg = match rt.block_on(h) {
+                Err(e) if e.is_panic() => { let p = e.into_panic(); p.downcast_ref::<String>().cloned().or_else(|| p.downcast_ref::<&str>().map(|s| s.to_string())).unwrap_or_default() }
+                _ => "task ended without a result".to_string(),
+            };
+            Attempt::Panic(msg)
+        }
+    }
+}
+
+/// physical plan of `sql` (planned only, not executed)
+fn plan_text(tabs: &[Tab], sql: &str, tp: usize, bs: usize) -> String {
+    let rt = tokio::runtime::Builder::new_multi_thread().worker_threads(2).enable_all().build().unwrap();
+    let (tabs2, sql2) = (tabs.to_vec(), sql.to_string());
+    let r = rt.block_on(async move {
+        tokio::time::timeout(std::time::Duration::from_secs(15), async move {
+            let ctx = SessionContext::new_with_config(SessionConfig::new().with_target_partitions(tp).with_batch_size(bs));
+            for (i, t) in tabs2.iter().enumerate() { register(&ctx, i, t); }
+            let df = ctx.sql(&sql2).await.map_err(|e| e.to_string())?;
+            let pp = df.create_physical_plan().await.map_err(|e| e.to_string())?;
+            Ok::<String, String>(format!("{}", datafusion::physical_plan::displayable(pp.as_ref()).indent(false)))
+        }).await
+    });
+    rt.shutdown_background();
+    match r { Ok(Ok(s)) => s, Ok(Err(e)) => format!("planning failed: {e}"), Err(_) => "planning timed out".into() }
+}
+
+const ATTEMPTS: usize = 3;
+fn run_case(id: u64, stream: &str, tabs: &[Tab], q: &Q, tp: usize, bs: usize, probe: &str, explain: bool, secs: u64) -> usize {
     let widths: Vec<usize> = tabs.iter().map(|t| t.types.len()).collect();
     let sql = if probe.is_empty() { to_sql(q, &widths) } else { probe.to_string() };
     let qj = q_json(q, &widths);
-    let res = catch_unwind(AssertUnwindSafe(|| {
-        let ctx = SessionContext::new_with_config(SessionConfig::new().with_target_partitions(tp).with_batch_size(bs));
-        for (i, t) in tabs.iter().enumerate() { register(&ctx, i, t); }
-        rt.block_on(exec(&ctx, &sql, explain))
-    }));
+    let mut hung = 0;
+    let mut res = Attempt::Hang;
+    for _ in 0..ATTEMPTS {
+        res = attempt(tabs, &sql, tp, bs, explain, secs);
+        if let Attempt::Hang = res { hung += 1; } else { break; }
+    }
     let (out, ok) = match res {
-        Ok(Ok(rows)) => (format!("{{\"rows\":{rows}}}"), true),
-        Ok(Err(e)) => (format!("{{\"err\":{}}}", json_str(&e)), true),
-        Err(p) => {
-            let msg = p.downcast_ref::<String>().cloned().or_else(|| p.downcast_ref::<&str>().map(|s| s.to_string())).unwrap_or_default();
-            (format!("{{\"err\":{}}}", json_str(&format!("panic: {msg}"))), false)
-        }
+        Attempt::Done(Ok(rows)) => (format!("{{\"rows\":{rows}}}"), true),
+        Attempt::Done(Err(e)) => (format!("{{\"err\":{}}}", json_str(&e)), true),
+        Attempt::Panic(msg) => (format!("{{\"err\":{}}}", json_str(&format!("panic: {msg}"))), false),
+        Attempt::Hang => (format!("{{\"err\":{}}}", json_str(&format!("timeout: the query did not finish within {secs} s in any of {ATTEMPTS} attempts"))), true),
     };
-    println!("{{\"id\":{id},\"stream\":\"{stream}\",\"tp\":{tp},\"bs\":{bs},\"tables\":{},\"q\":{qj},\"sql\":{},\"out\":{out},\"ok\":{ok}}}",
+    let plan = if hung > 0 { format!(",\"hung\":{hung},\"hang_secs\":{secs},\"plan\":{}", json_str(&plan_text(tabs, &sql, tp, bs))) } else { String::new() };
+    println!("{{\"id\":{id},\"stream\":\"{stream}\",\"tp\":{tp},\"bs\":{bs},\"tables\":{},\"q\":{qj},\"sql\":{},\"out\":{out},\"ok\":{ok}{plan}}}",
         tables_json(tabs), json_str(&sql));
+    hung
 }
 
 fn main() {
@@ -159,11 +213,15 @@ fn main() {
     let only: i64 = arg(&args, "--case", "-1").parse().unwrap();
     let explain = args.iter().any(|a| a == "--explain");
     let probe = arg(&args, "--probe", "");
-    let rt = tokio::runtime::Builder::new_multi_thread().worker_threads(2).enable_all().build().unwrap();
+    let secs: u64 = arg(&args, "--timeout", "20").parse().unwrap();
     for (k, (name, tabs, q, tp, bs)) in witnesses().into_iter().enumerate() {
         let id = 1_000_000 + k as u64;
         if only >= 0 && id as i64 != only { continue; }
-        run_case(&rt, id, &format!("witness:{name}"), &tabs, &q, tp, bs, &probe, explain);
+        // the KF6 witness hangs only intermittently: run it up to 8 times, stop at the first run that hung
+        let reps = if name == "KF6" && only < 0 { 8 } else { 1 };
+        for _ in 0..reps {
+            if run_case(id, &format!("witness:{name}"), &tabs, &q, tp, bs, &probe, explain, secs) > 0 { break; }
+        }
     }
     let mut rng = Rng::new(seed);
     for id in 0..n {
@@ -174,6 +232,6 @@ fn main() {
         let (q, widths) = { let mut g = Gen { rng: &mut rng, tabs: tabs.clone() }; let q = g.query(stream); (q, g.tab_widths()) };
         if only >= 0 && id as i64 != only { continue; }
         let _ = widths;
-        run_case(&rt, id, stream, &tabs, &q, tp, bs, &probe, explain);
+        let _ = run_case(id, stream, &tabs, &q, tp, bs, &probe, explain, secs);
     }
 }
